@@ -302,12 +302,24 @@ static inline void yk_pause(void) { }
 static inline void yk_sleep(void) { }
 static inline void yk_stop(void) { YK_ASSUME(0); }
 static inline void yk_hook(int kind, const void* p) { yk_watch_note(kind, p); }   /* outside thread entries: atomic */
+#ifndef YK_MAX_SLEEPS
+#define YK_MAX_SLEEPS 2
+#endif
+extern uint32_t yk_thr_sleeps[YK_NT];
+extern uint8_t yk_parked[YK_NT];       /* a background thread that used up its periods: never scheduled again */
 static inline int yk_preempt(int kind, const void* p)
 {
     yk_watch_note(kind, p);
     yk_hooks_in_ctx++;
     if (kind == 5) return 0;                              /* layer descent: a progress marker only */
-    if (kind == 2 || kind == 3 || kind == 4) return 1;    /* wait / retry / sleep: always hand the processor over */
+    if (kind == 2 || kind == 3) return 1;                 /* wait / retry: always hand the processor over */
+    if (kind == 4) {
+        /* sleepMs(period): the period is ARBITRARY (the thread may go on at once or be delayed); after YK_MAX_SLEEPS
+         * periods the background thread is parked for good (the bound on epoch advances / gc passes) */
+        if (yk_cur >= 0) { yk_thr_sleeps[yk_cur]++; if (yk_thr_sleeps[yk_cur] > YK_MAX_SLEEPS) { yk_parked[yk_cur] = 1; return 1; } }
+        if (yk_draining) return 0;
+        return nondet_uint8() & 1;
+    }
     if (yk_draining) return 0;                            /* fair continuation: no voluntary pre-emption */
     return nondet_uint8() & 1;
 }
